@@ -48,8 +48,8 @@ class Harness(cm.BaseB):
 
     def cases(self, chunk):
         if chunk["k"] == "opt":
-            for st in (True, False):
-                for dt in (True, False):
+            for st in (True, False, "generic"):
+                for dt in (True, False, "generic"):
                     for mode in ("auto", "source", "destination", "Source", "", {"$none": 1}, "both", "AUTO"):
                         yield {"k": "opt", "src_trough": st, "dst_trough": dt, "mode": mode}
             return
@@ -116,8 +116,12 @@ class Harness(cm.BaseB):
 
     def one_opt(self, case):
         mode = None if isinstance(case["mode"], dict) else case["mode"]
-        src = build_labware(trough("S", 4, 2, 0, 100, 50) if case["src_trough"] else plate("S", 4, 2, 0, 100, 50))
-        dst = build_labware(trough("D", 4, 2, 0, 100, 0) if case["dst_trough"] else plate("D", 4, 2, 0, 100, 0))
+        def mk(name, t, init):
+            if t == "generic":
+                return build_labware(dict(trough(name, 4, 2, 0, 100, [init, init]), generic=True))
+            return build_labware(trough(name, 4, 2, 0, 100, init) if t else plate(name, 4, 2, 0, 100, init))
+
+        src, dst = mk("S", case["src_trough"], 50), mk("D", case["dst_trough"], 0)
         try:
             r = optimize_partition_by(src, dst, mode, "label")
         except Exception as e:
